@@ -1372,6 +1372,10 @@ class LogixDriver(CIPDriver):
                     else:
                         results[request.request_id] = Tag(request.tag, None, None, response.error)
                 else:
+                    if not response.responses:
+                        # the packet as a whole failed (or its reply could not be parsed): every member request failed
+                        for req in request.requests:
+                            results[req.request_id] = Tag(req.tag, None, None, req.error or response.error)
                     for resp in response.responses:
                         req = resp.request
                         if resp:
